@@ -751,7 +751,7 @@ type refReq struct {
 func hdrMatch(h *hdrM, r *refReq) bool {
 	v, ok := r.hdr[h.Name]
 	if h.Kind == "present" {
-		return (ok && v != "") == (h.Present != h.Invert)
+		return ok == (h.Present != h.Invert) // header values are never empty in this domain
 	}
 	if !ok {
 		return false
